@@ -26,7 +26,7 @@ import (
 	_ "github.com/honeytrap/honeytrap/services/ftp"
 	_ "github.com/honeytrap/honeytrap/services/ldap"
 	_ "github.com/honeytrap/honeytrap/services/redis"
-	"github.com/honeytrap/honeytrap/services/smtp"
+	_ "github.com/honeytrap/honeytrap/services/smtp"
 	_ "github.com/honeytrap/honeytrap/services/telnet"
 	"github.com/honeytrap/honeytrap/storage"
 	"verif/harness/hx"
@@ -42,10 +42,11 @@ const (
 	REDIS
 	MEMCACHED
 	HTTP
+	SMTP2 // two smtp services in one process: even connection ids are served by the second
 )
 
-var svcName = map[int]string{LDAP: "ldap", FTP: "ftp", SMTP: "smtp", TFTP: "tftp", TELNET: "telnet", REDIS: "redis", MEMCACHED: "memcached", HTTP: "http"}
-var svcPort = map[int]int{LDAP: 389, FTP: 21, SMTP: 25, TFTP: 69, TELNET: 23, REDIS: 6379, MEMCACHED: 11211, HTTP: 80}
+var svcName = map[int]string{LDAP: "ldap", FTP: "ftp", SMTP: "smtp", TFTP: "tftp", TELNET: "telnet", REDIS: "redis", MEMCACHED: "memcached", HTTP: "http", SMTP2: "smtp-two-services"}
+var svcPort = map[int]int{LDAP: 389, FTP: 21, SMTP: 25, TFTP: 69, TELNET: 23, REDIS: 6379, MEMCACHED: 11211, HTTP: 80, SMTP2: 25}
 
 // ---- the scenario ----
 type Step struct {
@@ -60,8 +61,6 @@ type Input struct {
 	Svc   int    `json:"svc"`
 	Name  string `json:"service"`
 	Trace []Step `json:"trace"`
-	// ldap only: the scenario was cut where two goroutines began to share one reader
-	Truncated bool `json:"truncated,omitempty"`
 }
 
 type OEv struct {
@@ -151,6 +150,7 @@ type sess struct {
 type engine struct {
 	svc      int
 	s        services.Servicer
+	s2       services.Servicer // SMTP2: the second service (port 587), serving even connection ids
 	rec      *recorder
 	sess     map[int]*sess
 	order    []int
@@ -175,26 +175,39 @@ func (e *engine) setCrash(s string) {
 // how long the service must be seen at rest before a step is considered complete
 const quietWindow = 250 * time.Microsecond
 
+// the protocol spoken in a scenario of kind svc
+func proto(svc int) int {
+	if svc == SMTP2 {
+		return SMTP
+	}
+	return svc
+}
+
 func newService(svc int, rec *recorder) services.Servicer {
-	fn, ok := services.Get(svcName[svc])
+	fn, ok := services.Get(svcName[proto(svc)])
 	if !ok {
-		hx.Fatal("service %s not registered", svcName[svc])
+		hx.Fatal("service %s not registered", svcName[proto(svc)])
 	}
-	if svc == SMTP {
-		// the constructor appends a handler to the package-level mux; a process hosts one
-		// smtp service here, as after a fresh start
-		smtp.DefaultServeMux = smtp.NewServeMux()
-	}
+	// note: every smtp service ever built in this process stays registered on the package-level
+	// smtp.DefaultServeMux; connections must not depend on it
 	return fn(services.WithChannel(rec))
 }
 
 func newEngine(svc int) *engine {
 	rec := &recorder{}
-	return &engine{svc: svc, s: newService(svc, rec), rec: rec, sess: map[int]*sess{}, sids: map[string]int{}}
+	e := &engine{svc: svc, s: newService(svc, rec), rec: rec, sess: map[int]*sess{}, sids: map[string]int{}}
+	if svc == SMTP2 {
+		e.s2 = newService(svc, rec)
+	}
+	return e
 }
 
 func (e *engine) open(id int) {
 	port := svcPort[e.svc]
+	handler := e.s
+	if e.svc == SMTP2 && id%2 == 0 {
+		port, handler = 587, e.s2
+	}
 	sc, cc := lab.Pipe(&net.TCPAddr{IP: localIP, Port: port}, &net.TCPAddr{IP: remoteIP(id), Port: remotePort(id)})
 	cn := &cntConn{AConn: sc, eng: e}
 	s := &sess{id: id, sc: cn, cc: cc}
@@ -216,7 +229,7 @@ func (e *engine) open(id int) {
 			s.mu.Unlock()
 			atomic.AddInt32(&e.live, -1)
 		}()
-		e.s.Handle(context.Background(), server.TimeoutConn(cn, 30*time.Second))
+		handler.Handle(context.Background(), server.TimeoutConn(cn, 30*time.Second))
 	}()
 	go func() {
 		buf := make([]byte, 1<<16)
@@ -299,7 +312,7 @@ func (e *engine) harvest() OStep {
 			s.eofTold = true
 		}
 		s.mu.Unlock()
-		for _, c := range canonReplies(e.svc, out) {
+		for _, c := range canonReplies(proto(e.svc), out) {
 			st.Replies = append(st.Replies, ORep{Conn: id, Code: c})
 		}
 		if eof {
@@ -311,7 +324,7 @@ func (e *engine) harvest() OStep {
 	e.evSeen = len(e.rec.evs)
 	e.rec.mu.Unlock()
 	for _, ev := range evs {
-		st.Events = append(st.Events, canonEvent(e.svc, ev, e.sids))
+		st.Events = append(st.Events, canonEvent(proto(e.svc), ev, e.sids))
 	}
 	sort.SliceStable(st.Events, func(i, j int) bool { return st.Events[i].Conn < st.Events[j].Conn })
 	return st
@@ -376,7 +389,7 @@ func runTCP(in *Input) (Obs, string) {
 				skipped = true
 				break
 			}
-			p := payload(in.Svc, stp.T, stp.A)
+			p := payload(proto(in.Svc), stp.T, stp.A)
 			s.cc.SetWriteDeadline(time.Now().Add(2 * time.Second))
 			n, _ := s.cc.Write(p)
 			s.sent += int64(n)
@@ -385,7 +398,7 @@ func runTCP(in *Input) (Obs, string) {
 			for atomic.LoadInt64(&s.sc.consumed) < s.sent && time.Since(t0) < 2*time.Second {
 				runtime.Gosched()
 			}
-			if in.Svc == FTP || in.Svc == SMTP {
+			if in.Svc == FTP || proto(in.Svc) == SMTP {
 				want++ // one event per line / message, sent by a pump goroutine
 			}
 		}
@@ -405,7 +418,7 @@ func runTCP(in *Input) (Obs, string) {
 		if stp.Kind == "tok" {
 			stp.Pick = 0
 			for _, ev := range st.Events {
-				if in.Svc == SMTP && ev.Type != 2 {
+				if proto(in.Svc) == SMTP && ev.Type != 2 {
 					continue
 				}
 				stp.Pick = ev.Conn
@@ -425,17 +438,6 @@ func runTCP(in *Input) (Obs, string) {
 		e.crashMu.Unlock()
 		if c != "" {
 			return ob, c
-		}
-		if in.Svc == LDAP {
-			// two handler goroutines now wait inside one bufio.Reader: from here on the code has
-			// no defined behaviour (unsynchronised use of the reader); the scenario ends here
-			for _, s := range e.sess {
-				if atomic.LoadInt32(&s.sc.blocked) >= 2 {
-					in.Trace = in.Trace[:k+1]
-					in.Truncated = true
-					return ob, ""
-				}
-			}
 		}
 	}
 	return ob, ""
@@ -596,19 +598,25 @@ func main() {
 	dist := map[string]int{}
 	var cases []hx.Case
 	debug := os.Getenv("C03_DEBUG") != ""
+	crashes := map[int]int{}
 	for i := range ins {
 		in := ins[i]
 		in.Name = svcName[in.Svc]
 		for k := range in.Trace {
 			in.Trace[k].Pick = 0
 		}
+		if crashes[in.Svc] >= 8 {
+			// the service keeps failing abruptly: eight scenarios with replay are enough
+			dist["not-run-after-repeated-failures:"+in.Name]++
+			continue
+		}
 		ob, crash := runOne(&in)
+		if crash != "" {
+			crashes[in.Svc]++
+		}
 		dist["service:"+in.Name]++
 		dist["shape:"+shape(in)]++
 		dist[fmt.Sprintf("steps:%02d-%02d", len(in.Trace)/5*5, len(in.Trace)/5*5+4)]++
-		if in.Truncated {
-			dist["ldap-cut-where-two-goroutines-share-a-reader"]++
-		}
 		for _, st := range ob.Steps {
 			if st.Skipped {
 				dist["steps-on-unread-or-closed-connection"]++
